@@ -28,6 +28,36 @@ CHECKS = {
    note="Tied to the code by the verification trace of the real binary (seeded RNG; per iteration the mutated index, new base, comparison result, sequence and bored): ssm-replay must reproduce the constrained start, every intermediate sequence, bored, the stopping step and the final line; ssm-params must agree on Nfree and bmax; ssm-check must accept every generated triple. Oracle on the real binary: exit 0, no ERROR, no sanitizer report, exactly one Good output line (independent IUPAC tables), exit within a wall-clock cap for runs without imax/tmax (a timeout is a violation C19:no-termination). WC/randbasec/degenerates/Python code sets come from the tables regenerated on every run (decide). Trusts: the hook in spuriousSSM.c prints what the program really did; the loader (load_input_files) is exercised but not modelled here (C05).",
    technique="Lean 4 theorems (loop invariants for constrain and the search loop, case analysis on class / partner class / rest, counting + pigeonhole for termination) + trace-replay correspondence + sanitizer runs of the real binary",
    design="5.19"),
+ "C01": dict(
+   text="Proof: PepperProps/C01.lean states, for every component AST the model accepts, that loading the emitted PIL statements (Emit.compStmts) as a specification succeeds and denotes (Pil.denote) the design that Denote.denoteComp assigns to the source directly and compositionally (same domains, sequences, strands nucleotide by nucleotide with orientation, structures, optimisation flags), up to a renaming of anonymous domains. The model (Comp.lean: object tables, clean_const, SuperSequence construction with deferred wildcard insertion, emission) is tied to the compiler by compiling generated programs with both and comparing emitted lines, emitted statement lists and the anonymous counter; violations are decided by the denotational oracle canon(denote(impl .pil)) = canon(denote(source)) evaluated by the Lean spec functions on the implementation's output.",
+   note="Theorems are about ASTs: the statement-level regexes of component_parser_regex are on the implementation side of the correspondence (programs are rendered from ASTs with free spacing and comments). Quoted regions and structure notations are parsed by the model itself. See PepperProps/C01.lean for which part of the refinement is proved at full strength and which is `_partial`.",
+   technique="Lean 4 refinement theorem (elaboration invariant) + differential correspondence + denotational oracle in Lean",
+   design="5.1"),
+ "C02": dict(
+   text="Proof: PepperProps/C02.lean proves over the system model (Sys.lean) that import resolution returns the first directory of dir::includes in which base.sys or base.comp exists (ambiguous / missing stated outright), that signal entries carry parity = (binding star xor declaration star) and are emitted with `*` exactly then, that instance prefixes keep instances disjoint, that arity is checked, and the composition theorem for the denoted design by induction over the instance tree (parametric in the component theorem C01). Tied to the code by compiling generated bundles (sub-directories, include lists, aliases, decoy files, nested systems to depth 3-4) with both; violations decided by canon(denote(impl .pil)) = canon(denoteSys(bundle)).",
+   note="AST-level; system_parser_pyparsing is on the implementation side. Template arguments are substituted into the sources by the harness before the model sees them (substitution itself is C13's model).",
+   technique="Lean 4 theorems (decision logic stated outright + induction over the instance tree) + differential correspondence + denotational oracle",
+   design="5.2"),
+ "C09": dict(
+   text="Proof: PepperProps/C09.lean proves for EVERY component/system AST (no well-formedness hypothesis) that a successful elaboration emits a well-formed specification (loadable: every reference resolves to a unique earlier definition; structures balanced with one correctly sized segment per strand; lengths consistent). The byte level is explored by token-level mutation of generated and example programs against the real compiler with an independent well-formedness oracle on whatever it writes.",
+   note="The map from arbitrary bytes to an AST-or-reject (the regex/pyparsing parsers) is validated by mutation testing, not proved. The compiler does not validate the code alphabet of quoted regions (e.g. \"2U\" is emitted as UU); this is not one of C09's clauses and is recorded as an observation.",
+   technique="Lean 4 theorem over all ASTs + mutation testing with a well-formedness oracle",
+   design="5.9"),
+ "C10": dict(
+   text="Proof: PepperProps/C10.lean proves for all part lists and all declared lengths (including 0) that a single wildcard resolves to exactly L - sum(others), that the result equals the explicit spelling, that every other part keeps multiplicity and order, and that the four malformed shapes are rejected (accepts_iff); lifted to super-sequences/strands (deferred insertion at the item's position). Tied to the code by exhaustive small and random large runs of Sequence(...)/parse_constraint against the model, and by compiling wildcard vs explicit statements with the real compiler and comparing denotations.",
+   note="Python ints are modelled as Nat with the negative-remainder case made explicit.",
+   technique="Lean 4 algebraic laws + differential correspondence",
+   design="5.10"),
+ "C14": dict(
+   text="Proof: PepperProps/C14.lean proves that the denotation of a program is invariant under inserting/deleting zero-length items (concatenation with []), and that emitted specifications contain no zero-length object. The real tool chain is exercised on pairs (program, program with zero-length objects inserted at first/last/middle/starred/quoted/zero-length super-sequence/only-member/inside a domains() target/last definition): both compile, the PIL denotes the same design once the inserted names are removed, the .des is unchanged, constraints -> design -> .mfe -> finish still succeeds.",
+   note="Corollary of the C01 refinement; the pipeline part is validated on the real code, not proved.",
+   technique="Lean 4 corollary of the refinement theorem + paired differential runs through the real tool chain",
+   design="5.14"),
+ "C18": dict(
+   text="Proof (partial): PepperProps/C18.lean proves that the only process state the model has, the anonymous counter, acts as a consistent renumbering (compile (a+k) = shift k (compile a)), that names within an output are unique per namespace (given user names are not of the reserved form), and that compilation depends on the file system only through the import probes. The runtime part is explored: fresh subprocesses under PYTHONHASHSEED in {0,1,12345,random}, 0-4 earlier compiles in the process, three invocation directories with relative paths, both back-ends; all outputs equal after dropping the timestamp and renaming anonymous domains; the model started from the process's counter reproduces each output.",
+   note="PARTIAL: hash seed, pyparsing's import-time global whitespace setting and dict mutation are runtime facts outside the model; covered by the differential runs only.",
+   technique="Lean 4 equivariance theorem + differential runs across processes/configurations",
+   design="5.18"),
 }
 
 NOT_YET = {}
@@ -38,7 +68,8 @@ def main():
     na = []
     for p in props:
         pid = p["id"]
-        if pid in CHECKS:
+        if pid in CHECKS and os.path.exists(os.path.join(VERIF, "lean", "PepperProps", pid + ".lean")) \
+                and os.path.exists(os.path.join(VERIF, "harness", "props", pid.lower() + ".py")):
             c = CHECKS[pid]
             checks.append({
               "property_id": pid,
